@@ -759,4 +759,149 @@ theorem content_grun (cfg : WCfg) (hf : FOK cfg.parser.filter) (evs : List Ev) (
     exact ih _ (gstep cfg hf w hg e (hgood e (by simp))) (content_step cfg hf w hg.winv hc e)
       (fun e' he' => hgood e' (List.mem_cons_of_mem _ he'))
 
+/-! ### quiescence, restarts included -/
+
+def Ev.isLinkOrRestart : Ev → Prop
+  | .link _ _ => True
+  | .restart _ _ => True
+  | _ => False
+
+theorem dueTags_eq_nodue (s : List TBlock) (p q : Nat) (h : p ≤ q) (heq : dueTags s p = dueTags s q) :
+    ∀ tb ∈ (s.drop p).take (q - p), due tb = false := by
+  unfold dueTags at heq
+  have hq : q = p + (q - p) := by omega
+  rw [hq, List.take_add, List.filter_append, List.map_append] at heq
+  have hnil : (((s.drop p).take (p + (q - p) - p)).filter due).map (·.tag) = [] := by
+    have := congrArg List.length heq
+    simp only [List.length_append] at this
+    apply List.eq_nil_of_length_eq_zero
+    have e : p + (q - p) - p = q - p := by omega
+    rw [e]
+    omega
+  have e : p + (q - p) - p = q - p := by omega
+  rw [e] at hnil
+  have hf : ((s.drop p).take (q - p)).filter due = [] := List.map_eq_nil_iff.mp hnil
+  intro tb htb
+  cases hd : due tb with
+  | false => rfl
+  | true =>
+    have : tb ∈ ((s.drop p).take (q - p)).filter due := List.mem_filter.mpr ⟨htb, hd⟩
+    rw [hf] at this; cases this
+
+theorem noPending_restart (cfg : WCfg) (w : World) (hg : GInv cfg w) (hnp : NoPending w) (src : SiteId) (p : Nat) :
+    NoPending (stepWorld cfg w (.restart src p)) := by
+  unfold stepWorld
+  simp only
+  split
+  · rename_i hguard
+    intro s tb htb
+    rw [site_setLink] at htb
+    rcases eq_or_other' src s with rfl | rfl
+    · rw [link_setLink_same] at htb
+      have hr := hg.resume src
+      have hsand : dueTags (w.site src).stream (w.link src).cpos = dueTags (w.site src).stream p :=
+        dueTags_sandwich _ _ _ _ hguard.1 hguard.2 hr.2
+      have heq : dueTags (w.site src).stream p = dueTags (w.site src).stream (w.link src).pos := by
+        rw [← hsand]; exact hr.2
+      have hsplit : (w.site src).stream.drop p =
+          ((w.site src).stream.drop p).take ((w.link src).pos - p) ++ (w.site src).stream.drop (w.link src).pos := by
+        have h1 := (List.take_append_drop ((w.link src).pos - p) ((w.site src).stream.drop p)).symm
+        rw [List.drop_drop] at h1
+        have e : p + ((w.link src).pos - p) = (w.link src).pos := by omega
+        rw [e] at h1
+        exact h1
+      show due tb = false
+      have htb' : tb ∈ (w.site src).stream.drop p := htb
+      rw [hsplit] at htb'
+      rcases List.mem_append.mp htb' with h | h
+      · exact dueTags_eq_nodue _ _ _ hguard.2 heq tb h
+      · exact hnp src tb h
+    · rw [link_setLink_other] at htb
+      exact hnp _ tb htb
+  · exact hnp
+
+theorem restart_same (cfg : WCfg) (w : World) (src : SiteId) (p : Nat) :
+    (stepWorld cfg w (.restart src p)).a.stream = w.a.stream ∧ (stepWorld cfg w (.restart src p)).b.stream = w.b.stream ∧
+    (stepWorld cfg w (.restart src p)).commits = w.commits ∧
+    ∀ s, ((stepWorld cfg w (.restart src p)).link s).emitted = (w.link s).emitted := by
+  unfold stepWorld
+  simp only
+  split
+  · refine ⟨congrArg SiteSt.stream (site_setLink w src .A _), congrArg SiteSt.stream (site_setLink w src .B _),
+      commits_setLink _ _ _, ?_⟩
+    intro s
+    rcases eq_or_other' src s with rfl | rfl
+    · rw [link_setLink_same]
+    · rw [link_setLink_other]
+  · exact ⟨rfl, rfl, rfl, fun _ => rfl⟩
+
+/-- once nothing a link still has to read is owed a commit, link steps AND
+    restarts of either syncer change neither stream, nor the commit log, nor
+    the emitted units -/
+theorem gquiesce (cfg : WCfg) (hf : FOK cfg.parser.filter) (evs : List Ev) (w : World) (hg : GInv cfg w)
+    (hnp : NoPending w) (hl : ∀ e ∈ evs, e.isLinkOrRestart) :
+    (runWorld cfg w evs).a.stream = w.a.stream ∧ (runWorld cfg w evs).b.stream = w.b.stream ∧
+    (runWorld cfg w evs).commits = w.commits ∧
+    (∀ s, ((runWorld cfg w evs).link s).emitted = (w.link s).emitted) := by
+  induction evs generalizing w with
+  | nil => exact ⟨rfl, rfl, rfl, fun _ => rfl⟩
+  | cons e es ih =>
+    have he := hl e (by simp)
+    have hrest : ∀ e' ∈ es, e'.isLinkOrRestart := fun e' he' => hl e' (List.mem_cons_of_mem _ he')
+    have hrun : runWorld cfg w (e :: es) = runWorld cfg (stepWorld cfg w e) es := rfl
+    cases e with
+    | link src arg =>
+      have hnd : ∀ tb, (w.site src).stream[(w.link src).pos]? = some tb → due tb = false := by
+        intro tb hget
+        apply hnp src tb
+        rw [List.mem_iff_getElem?]
+        refine ⟨0, ?_⟩
+        rw [List.getElem?_drop]
+        simpa using hget
+      obtain ⟨l', hstep, hem, hpos⟩ := link_step_nodue cfg w hg.winv src arg hnd
+      have hg' : GInv cfg (stepWorld cfg w (.link src arg)) := gstep_link cfg hf w hg src arg
+      have hnp' : NoPending (stepWorld cfg w (.link src arg)) := by
+        rw [hstep]
+        intro s tb htb
+        rw [site_setLink] at htb
+        rcases eq_or_other' src s with rfl | rfl
+        · rw [link_setLink_same] at htb
+          apply hnp src tb
+          have : l'.pos = (w.link src).pos + (l'.pos - (w.link src).pos) := by omega
+          rw [this, ← List.drop_drop] at htb
+          exact List.mem_of_mem_drop htb
+        · rw [link_setLink_other] at htb
+          exact hnp _ tb htb
+      obtain ⟨h1, h2, h3, h4⟩ := ih _ hg' hnp' hrest
+      rw [hrun]
+      refine ⟨?_, ?_, ?_, ?_⟩
+      · rw [h1, hstep]; exact congrArg SiteSt.stream (site_setLink w src .A l')
+      · rw [h2, hstep]; exact congrArg SiteSt.stream (site_setLink w src .B l')
+      · rw [h3, hstep]; exact commits_setLink _ _ _
+      · intro s
+        rw [h4, hstep]
+        rcases eq_or_other' src s with rfl | rfl
+        · rw [link_setLink_same]; exact hem
+        · rw [link_setLink_other]
+    | restart src p =>
+      obtain ⟨r1, r2, r3, r4⟩ := restart_same cfg w src p
+      obtain ⟨h1, h2, h3, h4⟩ := ih _ (gstep_restart cfg w hg src p) (noPending_restart cfg w hg hnp src p) hrest
+      rw [hrun]
+      exact ⟨h1.trans r1, h2.trans r2, h3.trans r3, fun s => (h4 s).trans (r4 s)⟩
+    | client _ _ _ => exact absurd he (by simp [Ev.isLinkOrRestart])
+    | tick _ _ => exact absurd he (by simp [Ev.isLinkOrRestart])
+    | expire _ _ => exact absurd he (by simp [Ev.isLinkOrRestart])
+    | snapshot _ _ _ => exact absurd he (by simp [Ev.isLinkOrRestart])
+    | book _ _ => exact absurd he (by simp [Ev.isLinkOrRestart])
+    | toolRaw _ _ _ => exact absurd he (by simp [Ev.isLinkOrRestart])
+
+theorem goodEvents_nil (cfg : WCfg) : GoodEvents cfg [] := by intro e he; cases he
+
+theorem goodEvents_cons (cfg : WCfg) (e : Ev) (es : List Ev) (h : EvOK' cfg e) (hs : GoodEvents cfg es) :
+    GoodEvents cfg (e :: es) := by
+  intro e' he'
+  rcases List.mem_cons.mp he' with rfl | h'
+  · exact h
+  · exact hs e' h'
+
 end GunYu.Bisync
